@@ -5,7 +5,14 @@
    (optionally makes more calls and rewinds again) and then drains NextData:
      variant r k api again / rewind run n err / deliver run dg / derr run / eof run
    Rule: Rewind returns (0, nil); the deliveries after the (last) Rewind equal
-   run 0's; errors of run 0 (none on a well-formed stream) equal too. *)
+   run 0's; errors of run 0 (none on a well-formed stream) equal too.
+   Further histories record their own reference run (variant r = -2) just before
+   the run they judge: "noseek-*" (a reader that cannot seek: a fresh Demuxer over
+   the rest of the input; Rewind's result is not judged), "after-reader-error"
+   (the reader failed once before the Rewind), "context-cancelled-before-rewind"
+   (reference: a fresh Demuxer whose context is done), "data-then-packets"
+   (NextData calls, Rewind, then NextPacket to the end; reference: a fresh
+   Demuxer read with NextPacket). *)
 EXTENDS MonBase
 VARIABLES l, st
 vars == <<l, st>>
